@@ -182,7 +182,7 @@ package inference
 //@ define (triggerOK t) (and (not (= (. t Producer) nil)) (not (= (. t Consumer) nil)) (not (isnil (. t Producer Annotation))) (not (isnil (. t Consumer Annotation))))
 
 //@ func (*Engine).buildFromSingleFullTrigger
-//@ prop C05 C10 C15
+//@ prop C05 C10 C15 C09 C04
 //@ requires (engOK e)
 //@ modifies (map e.primitive.objPathCache) (obj e.inferredMap.mapping) (map e.inferredMap.mapping.inner) (elems e.inferredMap.mapping.Pairs) (obj (omPair e.inferredMap.mapping 0)) (obj (implOf e.inferredMap)) (map (. (implOf e.inferredMap) inner)) (elems (. (implOf e.inferredMap) Pairs)) (obj (omPair (implOf e.inferredMap) 0))
 //@ ensures ok-after (and (engOK e) (sameEngine e))
@@ -407,7 +407,7 @@ package inference
 //@ -- C10: an explicit annotation is handed to the engine as a *BecauseAnnotation explanation of the right polarity
 //@ -- for exactly the annotated site (key, deep flag)
 //@ func (*Engine).ObserveAnnotations$1
-//@ prop C10 C05 C15
+//@ prop C10 C05 C15 C09 C04
 //@ requires (engOK e)
 //@ modifies (map e.primitive.objPathCache) (obj e.inferredMap.mapping) (map e.inferredMap.mapping.inner) (elems e.inferredMap.mapping.Pairs) (obj (omPair e.inferredMap.mapping 0)) (obj (implOf e.inferredMap)) (map (. (implOf e.inferredMap) inner)) (elems (. (implOf e.inferredMap) Pairs)) (obj (omPair (implOf e.inferredMap) 0))
 //@ ensures engine-stays-well-formed (and (engOK e) (sameEngine e))
@@ -519,7 +519,7 @@ package inference
 //@    (forall ((j Int)) (=> (and (<= 0 j) (<= j n) (. (rootAt i j) Exported)) (mtrue te (rootAt i j))))
 //@    (forall ((j Int)) (=> (and (<= 0 j) (<= j n)) (rootClosed i te re rfe (rootAt i j)))))
 //@ func (*InferredMap).chooseSitesToExport
-//@ prop C06 C03
+//@ prop C06 C03 C01
 //@ requires (imOK i)
 //@ modifies (obj i.mapping) (map i.mapping.inner) (map result)
 //@ ensures graph-untouched (graphKept i)
@@ -633,7 +633,7 @@ package inference
 //@ -- ObserveUpstream: replays every dependency fact into the map and then snapshots the map; the engine stays
 //@ -- well-formed throughout (every entry goes through the replay closure / the snapshot closure under contract).
 //@ func (*Engine).ObserveUpstream
-//@ prop C05 C03 C06
+//@ prop C05 C03 C06 C01 C09
 //@ ghost dyncalls-pure
 //@ requires (and (engOK e) (not (= e.inferredMap.upstreamMapping nil)))
 //@ modifies *
